@@ -21,7 +21,9 @@
 
 #include <algorithm>
 #include <array>
+#include <cmath>
 #include <cstring>
+#include <limits>
 #include <random>
 #include <sstream>
 
@@ -61,8 +63,10 @@ ssize_t wrapFull(F f, int fd, T buf, size_t count) {
 namespace Oomd {
 
 int Util::parseSize(const std::string& input, int64_t* output) {
+  // 2^63: the first value that no longer fits into int64_t
+  static constexpr long double kLimit = 9223372036854775808.0L;
   bool is_neg = false;
-  uint64_t size = 0;
+  long double size = 0;
   size_t pos = 0;
   auto istr = input;
 
@@ -94,13 +98,14 @@ int Util::parseSize(const std::string& input, int64_t* output) {
     auto num = istr.substr(pos, unit_pos - pos);
     auto unit = istr.c_str()[unit_pos];
 
-    double v;
+    long double v;
     try {
       v = std::stold(num, &end_pos);
     } catch (...) {
       return -1;
     }
-    if (end_pos != num.length() || v < 0) {
+    // !(v >= 0) also rejects NaN
+    if (end_pos != num.length() || !(v >= 0) || !std::isfinite(v)) {
       return -1;
     }
 
@@ -123,9 +128,14 @@ int Util::parseSize(const std::string& input, int64_t* output) {
         return -1;
     }
     size += v;
+    if (!(size < kLimit)) {
+      // does not fit into the int64_t result
+      return -1;
+    }
     pos = unit_pos + 1;
   }
-  *output = is_neg ? -size : size;
+  int64_t bytes = static_cast<int64_t>(size);
+  *output = is_neg ? -bytes : bytes;
   return 0;
 }
 
@@ -135,8 +145,10 @@ int Util::parseSizeOrPercent(
     int64_t total) {
   try {
     if (input.size() > 0 && input.at(input.size() - 1) == '%') {
-      int64_t pct = std::stoi(input.substr(0, input.size() - 1));
-      if (pct < 0 || pct > 100) {
+      size_t end_pos;
+      auto num = input.substr(0, input.size() - 1);
+      int64_t pct = std::stoi(num, &end_pos);
+      if (end_pos != num.length() || pct < 0 || pct > 100) {
         return -1;
       }
 
@@ -149,7 +161,11 @@ int Util::parseSizeOrPercent(
       // compat - a bare number is interpreted as megabytes
       v = std::stoll(input, &end_pos);
       if (end_pos == input.length()) {
-        *output = v << 20;
+        constexpr int64_t kMaxMb = std::numeric_limits<int64_t>::max() >> 20;
+        if (v > kMaxMb || v < -kMaxMb) {
+          return -1;
+        }
+        *output = v * (1LL << 20);
         return 0;
       }
 
